@@ -140,7 +140,7 @@ def run(chk: harness.Check):
         "receive matching severities; (D4) in RecipeCollector::parse_events the Event::Error arm calls SourceReport::retain with a Stage::Parse predicate and "
         "returns PassResult::new(None, ..), every other PassResult::new carries Some(content); (D5) PassResult::is_valid is has_output() ∧ ¬has_errors(); "
         "(D6) every Number::Fraction built in the parser takes its denominator from frac() or under the `== 0` rejection; (D7) the out-of-range diagnostic of an intermediate reference is guarded by the "
-        "n-th element of the is_step-filtered enumeration of the current section / a comparison with content.sections.len() (shared with C06.D6). Weak: which condition triggers a "
+        "n-th element of the is_step-filtered enumeration of the current section / a comparison with content.sections.len() (shared with C06.D6); (D8) Text::is_text_empty, on which the empty-name/unit/key/value checks hang, examines every fragment. Weak: which condition triggers a "
         "diagnostic and where its labels point are not decided.")
     chk.trusted = ["rustc MIR", "tables/diagnostics.toml (reviewed catalogue; message texts are listed for the reader and never compared)"]
     cons = constructions(F)
@@ -179,6 +179,36 @@ def run(chk: harness.Check):
     # (n-th STEP of the current section / comparison with content.sections.len()): counting anything else moves the range
     import c06
     c06.d6_intermediate(chk, F, rule="C07.D7-intermediate-range")
+    d8_empty_predicate(chk, F)
+
+
+def d8_empty_predicate(chk, F):
+    """The empty-name / empty-unit / empty-key / empty-value diagnostics all hang on Text::is_text_empty: it must look at
+    every fragment (`fragments().iter().all(|f| f.text.trim().is_empty())`) or at the whole assembled text
+    (`text()/text_trimmed()` … `is_empty()`), and at least the eight reviewed checks must still consult it."""
+    from flow import resolve, leaves, show
+    import c09
+    fs = [g for g in F.find("text::Text::is_text_empty") if not g.is_closure()]
+    if len(fs) != 1:
+        chk.fail("anchor-missing", "is_text_empty", "", "anchor-missing: Text::is_text_empty not found")
+        return
+    f = fs[0]
+    e = c09.return_expr(f)
+    ls = leaves(e)
+    calls = {l[5:] for l in ls if l.startswith("call:")}
+    form_all = e[0] == "call" and e[1].endswith("Iterator>::all") and any(c.endswith("text::Text::fragments") for c in calls)
+    if form_all:
+        clos = [g for g in F.region_funcs(f.key) if g.is_closure()]
+        form_all = len(clos) == 1 and (lambda t: "is_empty(" in t and "trim" in t and ".text" in t)(show(c09.return_expr(clos[0]), -50))
+    form_whole = e[0] == "call" and e[1].endswith("is_empty") and any(c.endswith(("Text::text", "Text::text_trimmed", "Text::text_outer_trimmed")) for c in calls) \
+        and any("trim" in c for c in calls)
+    chk.expect(form_all or form_whole, "C07.D8-empty-predicate", "is_text_empty|every fragment", f"{f.file}:{f.line}",
+               f"Text::is_text_empty no longer tests every fragment's trimmed text (it returns {show(e, -50)[:100]}): an empty name / unit / key padded with "
+               "a comment or a line break would stop being diagnosed", sample=f"{f.file}:{f.line}: fragments().iter().all(|f| f.text.trim().is_empty())")
+    users = {g.key for g, kind, b, t in F.callers_of(f.key) if kind == "call" and g.crate == "cooklang"}
+    chk.expect(len(users) >= 8, "C07.D8-empty-predicate", "is_text_empty|users", f"{f.file}:{f.line}",
+               f"only {len(users)} parser functions still consult is_text_empty (reviewed: 8): an emptiness check was removed",
+               sample=f"is_text_empty consulted by {len(users)} functions")
 
 
 DROPPERS = ("Result::<T, E>::ok", "Result::<T, E>::unwrap_or", "Result::<T, E>::unwrap_or_default", "Result::<T, E>::unwrap_or_else", "Result::<T, E>::is_ok",
